@@ -520,6 +520,7 @@ def run_fwd_ops(kind, workers, hmax, fmax, local_only, phen, ops):
                     gates["e%d" % op[1]["eid"]] = threading.Event()
         fw, rec, taken = make_forwarder(h, phen, {}, fmax, local_only, gates)
         fq = []
+        accepted = run_fwd_ops.accepted = []
         for op in ops:
             if op[0] == "P":
                 before = fw.size()
@@ -529,6 +530,7 @@ def run_fwd_ops(kind, workers, hmax, fmax, local_only, phen, ops):
                     out.append(2)
                 if fw.size() > before:
                     fq.append(op[1])
+                    accepted.append(op[1])
             elif op[0] == "U":
                 head = fq.pop(0) if fq else None
                 before = h.size()
@@ -905,12 +907,15 @@ def _run(ctx, res, rng, q):
         phen, evs = gen_fwd_cfg(rng, rng.randint(1, 7))
         hmax, fmax, lo = rng.choice((0, 0, 1, 2)), rng.choice((0, 0, 2)), rng.random() < 0.7
         ops = [o for o in gen_fwd_ops(rng, evs) if o[0] != "C"]
+        if rng.random() < 0.35:         # a burst: everything is produced before the forwarder runs
+            ops = [o for o in ops if o[0] == "P"] + [o for o in ops if o[0] != "P"]
         case = dict(kind="fwd-ops", handler="blocking", workers=0, hmax=hmax, fmax=fmax, local_only=lo,
                     phen=phen, ops=ops)
         out, events, taken, extra = run_fwd_ops("blocking", 0, hmax, fmax, lo, phen, ops)
         res.note_case(("fb", repr(case)), sum(1 for o in ops if o[0] == "P") >= 2)
         res.count("forwarder_blocking")
-        add_failures(res, oracle_forwarder("blocking", events, taken, None), case)
+        # every complex event the forwarder accepted (and whose phenomenon has an action) is reported once, in order
+        add_failures(res, oracle_forwarder("blocking", events, taken, jobs_of_forwarder(phen, run_fwd_ops.accepted)), case)
         fcases.append((c_fwd_input("blocking", hmax, fmax, lo, phen, ops, extra), out))
         fmeta.append(case)
 
